@@ -470,6 +470,19 @@ func RunC05(r *core.Run) {
 			}
 			m := gen.Msg(rr, o)
 			in, nh, nc = m.Raw, len(m.Hdrs), countContacts(m)
+			if rr.Intn(12) == 0 {
+				// a backslash in front of a line end (or another hostile pair) inside a quoted
+				// string: usually rejected; if accepted, the line structure must still hold
+				if q := bytes.IndexByte(in[m.FLEnd:], '"'); q >= 0 {
+					at := m.FLEnd + q + 1 + rr.Intn(2)
+					if at > len(in) {
+						at = len(in)
+					}
+					ins := []string{"\\\n", "\\\r", "\\\r\n", "\\\n ", "\\\r\n\t", "\\\"", "\\\\\n", "\"\n", "\\"}[rr.Intn(9)]
+					in = append(append(append([]byte(nil), in[:at]...), ins...), in[at:]...)
+					w.Inc("quoted_string_line_end_mutations")
+				}
+			}
 		} else {
 			in = gen.Mutate(rr, corpus[rr.Intn(len(corpus))], 2)
 			nh, nc = 10, 3
